@@ -143,6 +143,9 @@ func (p *regExpParser) scanBracket() {
 			p.read()
 			p.scanEscape(true)
 			continue
+		} else if p.chr == '[' && p.chrOffset+1 < p.length && p.str[p.chrOffset+1] == ':' {
+			// "[:" inside a class would start a POSIX class in re2.
+			p.goRegexp.WriteByte('\\')
 		}
 		p.pass()
 	}
